@@ -13,7 +13,7 @@ EVIDENCE = dict(
          "nothing or a heading level (built-in style, name only in either case, outline level only; ODT: with / without "
          "default-outline-level) and whose root is based on nothing / the default style / an undefined style / a style of the "
          "chain (cycle), with the spec-computed level (nearest declaration wins), D every heading declaration x header/footer parts and nested list runs; each for DOCX and "
-         "ODT. O every sheet of 2..3 (thorough 4) independent styles x place (styles.xml / content.xml automatic styles) x the style used (first / middle / last declared) x heading with / without its own outline level, alone or mixed, with a cross-place parent chain; L every list tree of <= 3 (thorough 4) items over depths 0..3 with empty items, restarts, level jumps and (ODT) item-less wrappers / continuation paragraphs, also checked in the Lists() view; H every history of 3 calls out of {Text, Markdown, MarkdownWithOptions, MarkdownWithRAGOptions x heading options x ExcludeHeaders/ExcludeFooters, Document, ModelTables} on ONE reader over documents with headings of level 1..9 (ODT ..10), each call compared with the spec's levels for a fresh reader and with a fresh reader's result. Each case is rendered by the independent writers and read through docx.Open/odt.Open and tabula.Open "
+         "ODT. O every sheet of 2..3 (thorough 4) independent styles x place (styles.xml / content.xml automatic styles) x the style used (first / middle / last declared) x heading with / without its own outline level, alone or mixed, with a cross-place parent chain; W every properly nested arrangement of <= 5 blocks over paragraph, table, wrapper open / close and marker (thorough: both wrapper kinds, all markers, cell-level wrappers, a heading); L every list tree of <= 3 (thorough 4) items over depths 0..3 with empty items, restarts, level jumps and (ODT) item-less wrappers / continuation paragraphs, also checked in the Lists() view; H every history of 3 calls out of {Text, Markdown, MarkdownWithOptions, MarkdownWithRAGOptions x heading options x ExcludeHeaders/ExcludeFooters, Document, ModelTables} on ONE reader over documents with headings of level 1..9 (ODT ..10), each call compared with the spec's levels for a fresh reader and with a fresh reader's result. Each case is rendered by the independent writers and read through docx.Open/odt.Open and tabula.Open "
          "(Text, Markdown, Document). Non-trivial = body with a table or a paragraph mixing >= 3 inline kinds; distinct by "
          "format + body. Traces = documents (a sample of the cases + larger random ones) whose observed model WordDocTrace.tla accepted.",
     assumptions=["the DOCX/ODT writers (harness/internal/wpw) are trusted; they are audited for XML well-formedness, token numbering "
@@ -66,6 +66,22 @@ NOTES = """Interpretation choices (soundness first):
   call's OWN options do not cover is body content and is shown; paragraphs the options cover may be filtered - there
   only purity is asserted (same result as a fresh reader for the same call; in traces: the same call repeats its
   result).  The reader that collects the lines to filter for the options of its first excluding call is refuted by TLC.
+* Block-level wrappers and markers (family W): DOCX w:sdt/w:sdtContent (also nested, also around the paragraphs of
+  every table cell), w:customXml, bookmarkStart/End, proofErr, an empty content control; ODT text:section (nested, also
+  inside table cells), text:table-of-content/text:index-body, text:soft-page-break, an empty section, and
+  text:tracked-changes holding a deleted paragraph.  Two clauses:
+  (1) ORDER - the relative order and structure of the blocks that are presented must hold whatever wrappers stand
+      between them; it is checked on the tokens that are there, before and independently of (2).
+  (2) PRESENCE - the statement says the views present "the body ... paragraphs, headings, list items and tables ... as in
+      the source": what a content control, custom XML element, section or index body holds IS body text (Word and
+      LibreOffice show it in place), so it is asserted present, once, in order, with its structure.  /repo dropped all
+      of it for DOCX (genuine defect, proposed_fixes/C16-docx-block-containers-single-pass.patch) and the paragraphs of
+      a section inside an ODT table cell (C16-odt-cell-paragraphs-in-sections.patch).  Deleted text kept in
+      text:tracked-changes is NOT part of the body: asserted absent (/repo showed it at the top of the document:
+      C16-odt-tracked-changes-not-body.patch).
+  Not generated: mc:AlternateContent (which branch counts is a separate question), w:ins/w:del/w:moveFrom/w:moveTo at
+  block level (run-level ins is covered in family B), draw:frame / text boxes (floating content has no place in the
+  block order), row-level content controls, nested tables.
 * List trees (family L): a list is written as a sequence of item depths that may start deep, jump levels, contain
   empty items and - ODT - a further paragraph of an item after its nested list; DOCX numbering may use a second
   instance that restarts.  Every item text must be present once, in document order, at its depth (relative to the
@@ -116,11 +132,16 @@ def run(ctx):
     ctx.tlc("DocxOrderImplMC", "DocxOrderImpl_depth.cfg", workers=1)
     neg = ctx.tlc("DocxOrderImplMC", "DocxOrderImpl_blind.cfg", workers=1, expect_violation=True)
     ctx.extra["docx_order_impl_refuted"] = neg["violated"]
+    # ... and with block-level wrappers in the body: the depth-counting pass keeps the ordinary blocks in order,
+    # the pass that skips registered subtrees instead of counting depth is refuted
+    ctx.tlc("DocxOrderImplMC", "DocxOrderImpl_depthw.cfg", workers=2)
+    neg = ctx.tlc("DocxOrderImplMC", "DocxOrderImpl_skip.cfg", workers=1, expect_violation=True)
+    ctx.extra["docx_skip_matcher_refuted"] = neg["violated"]
     # R1 + R2: invariants checked and cases emitted in the same exhaustive runs
     # quick: all families with their quick bounds in ONE TLC run (WordDoc_Q.cfg = A<=3, B 2x2, C 2x2 + wide, D, S<=4, L<=3, O<=3)
     cfgs = ["WordDoc_Q.cfg"] if q else \
            ["WordDoc_A_thorough.cfg", "WordDoc_B_quick.cfg", "WordDoc_B_thorough.cfg", "WordDoc_B_thorough2.cfg",
-            "WordDoc_C_thorough.cfg", "WordDoc_D.cfg", "WordDoc_S.cfg", "WordDoc_L_thorough.cfg", "WordDoc_O_thorough.cfg"]
+            "WordDoc_C_thorough.cfg", "WordDoc_D.cfg", "WordDoc_S.cfg", "WordDoc_L_thorough.cfg", "WordDoc_O_thorough.cfg", "WordDoc_W_thorough.cfg"]
     cases, seen = [], set()
     for cfg in cfgs:
         gen = ctx.tlc("WordDocMC", cfg, workers=8, collect=True, timeout=3000)
